@@ -314,6 +314,47 @@ func c17Reconcile(t *testing.T, run *h.Run, c c17Case) int {
 	}, func() { run.Count("schedules", 1) })
 }
 
+// c17Unbuildable: a batch of creations every one of which fails before any API call (the pod template carries a controller
+// owner reference of its own, e.g. copied from a pod of the DaemonSet being migrated, so the replica set cannot be set as
+// controller): these errors come back from the parallel creation like any other and must not be lost.
+func c17Unbuildable(t *testing.T, run *h.Run, k int) {
+	w.InBubble(t, time.Hour, func() {
+		st, rsName := c17Build(c17Case{Kind: "create", K: k}, time.Now())
+		objs := []client.Object{}
+		for _, o := range st.Objs {
+			if rs, ok := o.O.(*v1.ExtendedDaemonSetReplicaSet); ok {
+				rs = rs.DeepCopy()
+				tr := true
+				rs.Spec.Template.OwnerReferences = []metav1.OwnerReference{{APIVersion: "apps/v1", Kind: "DaemonSet", Name: "legacy", UID: "uid-legacy", Controller: &tr}}
+				objs = append(objs, rs)
+				continue
+			}
+			objs = append(objs, o.O)
+		}
+		st2 := w.NewState(0, objs...)
+		st2.Now = time.Hour
+		l := w.NewLive(st2, w.Config{})
+		rr := l.ReconcileERS("ns", rsName)
+		run.Count("schedules", 1)
+		rep := map[string]interface{}{"level": "reconcile", "case": "creation of k pods whose generation fails (template with a controller owner reference)", "batch": k}
+		if rr.Panic != nil {
+			run.Violate(h.Violation{Signature: fmt.Sprintf("C17/panic: %v at %s", rr.Panic, rr.PanicSite), Monitor: "C17/reconcile", Replay: rep})
+			return
+		}
+		post := l.Capture(st2).ERS("ns", rsName)
+		run.Count("antecedent:C17/unbuildable", 1)
+		if rr.Err == nil {
+			run.Violate(h.Violation{Signature: "C17/lost: the errors of a parallel pod creation whose pods cannot be generated are not reflected in the error the sync returns", Monitor: "C17/reconcile",
+				Message: fmt.Sprintf("%d pods, Reconcile returned nil", k), Rank: int64(k), Replay: rep})
+		}
+		if post != nil && !w.ERSCondTrue(post, v1.ConditionTypeReconcileError) {
+			run.Violate(h.Violation{Signature: "C17/lost: the errors of a parallel pod creation whose pods cannot be generated are not reflected in the ReconcileError condition", Monitor: "C17/reconcile",
+				Message: fmt.Sprintf("%d pods", k), Rank: int64(k), Replay: rep})
+		}
+		run.Nontrivial(fmt.Sprintf("unbuildable:k=%d", k))
+	})
+}
+
 func TestC17(t *testing.T) {
 	run := h.NewRun("C17", "model_checking")
 	maxK := 4
@@ -337,6 +378,10 @@ func TestC17(t *testing.T) {
 			}
 		}
 	}
+	for k := 1; k <= maxK; k++ {
+		c17Unbuildable(t, run, k)
+	}
+	requireAntecedents(run, "C17/unbuildable")
 	parallel(len(cases), func(i int) {
 		n := c17Reconcile(t, run, cases[i])
 		fmt.Printf("  %-16s k=%d recent=%-5v schedules=%d\n", cases[i].Kind, cases[i].K, cases[i].RecentRU, n)
